@@ -143,6 +143,23 @@ impl Oper {
         )
     }
 
+    /// Postgres `ILIKE` / `NOT ILIKE`: written like `LIKE`, with the same optional `ESCAPE` argument.
+    pub(crate) fn is_ilike(&self) -> bool {
+        #[cfg(feature = "backend-postgres")]
+        {
+            use crate::extension::postgres::PgBinOper;
+            matches!(
+                self,
+                Oper::BinOper(BinOper::PgOperator(PgBinOper::ILike))
+                    | Oper::BinOper(BinOper::PgOperator(PgBinOper::NotILike))
+            )
+        }
+        #[cfg(not(feature = "backend-postgres"))]
+        {
+            false
+        }
+    }
+
     pub(crate) fn is_in(&self) -> bool {
         matches!(
             self,
